@@ -51,16 +51,21 @@ fn ident(rng: &mut Rng) -> (String, &'static str) {
         0 | 1 => {
             // digit-leading identifier; first letter outside [a-fA-FxXbB] keeps clear of the
             // number-like corner cases of LLVM's own lexer
-            const L: &[u8] = b"ghijklmnopqrstuvwyzGHIJKLMNOPQRSTUVWYZ_";
-            let mut s = String::new();
-            for _ in 0..1 + rng.below(3) {
-                s.push((b'0' + rng.below(10) as u8) as char);
+            // any letter may follow the digits; only <digits>b[01]… and <digits>x<hexdigit>… are left
+            // out: LLVM's own lexer reads those as (malformed) numbers, the reference as identifiers
+            loop {
+                let mut s = String::new();
+                for _ in 0..1 + rng.below(3) {
+                    s.push((b'0' + rng.below(10) as u8) as char);
+                }
+                s.push(FIRST[rng.below(FIRST.len())] as char);
+                for _ in 0..rng.below(4) {
+                    s.push(REST[rng.below(REST.len())] as char);
+                }
+                if !number_like_corner(&s) {
+                    return (s, "id-digit-leading");
+                }
             }
-            s.push(L[rng.below(L.len())] as char);
-            for _ in 0..rng.below(4) {
-                s.push(REST[rng.below(REST.len())] as char);
-            }
-            (s, "id-digit-leading")
         }
         2 => {
             // keyword as a prefix / with a suffix
@@ -82,6 +87,20 @@ fn ident(rng: &mut Rng) -> (String, &'static str) {
                 return (s, "id");
             }
         },
+    }
+}
+
+/// `<digits>b[01]…` / `<digits>x<hexdigit>…` that is not a well-formed 0b/0x literal
+pub fn number_like_corner(w: &str) -> bool {
+    let b = w.as_bytes();
+    let k = b.iter().take_while(|c| c.is_ascii_digit()).count();
+    if k == 0 || k + 1 >= b.len() {
+        return false;
+    }
+    match (b[k], b[k + 1]) {
+        (b'b', b'0' | b'1') => true,
+        (b'x', c) if c.is_ascii_hexdigit() => true,
+        _ => false,
     }
 }
 
@@ -372,11 +391,8 @@ pub fn differential_raw(text: &str) -> Result<(), Failure> {
     for t in &r {
         let w = &text[t.start..t.end];
         let b = w.as_bytes();
-        if b[0].is_ascii_digit() && t.kind == RefKind::Id {
-            let first_letter = b.iter().find(|c| !c.is_ascii_digit()).copied().unwrap_or(b'g');
-            if matches!(first_letter, b'a'..=b'f' | b'A'..=b'F' | b'x' | b'b') {
-                return Ok(());
-            }
+        if b[0].is_ascii_digit() && t.kind == RefKind::Id && number_like_corner(w) {
+            return Ok(());
         }
         if matches!(t.kind, RefKind::Int | RefKind::BinInt) {
             // out-of-range literals are the implementation's right to reject
